@@ -45,6 +45,20 @@ def canon_text(txt: str) -> str:
                             return ast.Call(func=ast.Attribute(value=ast.Name(id="math", ctx=ast.Load()), attr="ceil", ctx=ast.Load()), args=[ast.BinOp(left=x, op=ast.Div(), right=ast.Constant(value=k))], keywords=[])
             return node
 
+        def visit_Call(self, node: ast.Call) -> ast.AST:
+            self.generic_visit(node)
+            fn = node.func
+            # "text".encode("utf-16-le") is the byte string it denotes
+            if isinstance(fn, ast.Attribute) and fn.attr == "encode" and isinstance(fn.value, ast.Constant) and isinstance(fn.value.value, str) and len(node.args) <= 1 and not node.keywords and all(isinstance(a, ast.Constant) and isinstance(a.value, str) for a in node.args):
+                try:
+                    return ast.Constant(value=fn.value.value.encode(*[a.value for a in node.args]))  # type: ignore[attr-defined]
+                except Exception:
+                    return node
+            # b"".join((a, b)) and b"".join([a, b]) are the same concatenation
+            if isinstance(fn, ast.Attribute) and fn.attr == "join" and len(node.args) == 1 and isinstance(node.args[0], ast.Tuple):
+                node.args = [ast.List(elts=node.args[0].elts, ctx=ast.Load())]
+            return node
+
         def visit_UnaryOp(self, node: ast.UnaryOp) -> ast.AST:
             self.generic_visit(node)
             o = node.operand
